@@ -1,0 +1,104 @@
+//go:build verif
+
+package highlight
+
+import (
+	"time"
+
+	"src.elv.sh/pkg/diag"
+	"src.elv.sh/pkg/parse"
+	"src.elv.sh/pkg/ui"
+)
+
+// Verification hooks for property C30 (add-only, built only with -tags verif).
+// They expose the unexported highlight / getRegions / fixRegions and the theme
+// table; nothing here changes the behaviour of the package.
+
+// VerifRegion is the exported mirror of region.
+type VerifRegion struct {
+	Begin, End int
+	Kind       int // 0 lexical, 1 semantic
+	Type       string
+}
+
+func toVerif(rs []region) []VerifRegion {
+	out := make([]VerifRegion, len(rs))
+	for i, r := range rs {
+		out[i] = VerifRegion{r.Begin, r.End, int(r.Kind), r.Type}
+	}
+	return out
+}
+
+func fromVerif(rs []VerifRegion) []region {
+	out := make([]region, len(rs))
+	for i, r := range rs {
+		out[i] = region{r.Begin, r.End, regionKind(r.Kind), r.Type}
+	}
+	return out
+}
+
+// VerifHighlight is the unexported highlight.
+func VerifHighlight(code string, cfg Config, lateCb func(ui.Text)) (ui.Text, []ui.Text) {
+	return highlight(code, cfg, lateCb)
+}
+
+// VerifRawRegions returns the region list that highlight hands to fixRegions
+// for this code: getRegions of the parsed tree followed by the error regions
+// of the non-partial parse errors and of the non-partial errors of cfg.Check.
+func VerifRawRegions(code string, cfg Config) []VerifRegion {
+	var errorRegions []region
+	add := func(r diag.Ranging, partial bool) {
+		if !partial {
+			errorRegions = append(errorRegions, region{r.From, r.To, semanticRegion, errorRegion})
+		}
+	}
+	tree, errParse := parse.Parse(parse.Source{Name: "[interactive]", Code: code}, parse.Config{})
+	for _, err := range parse.UnpackErrors(errParse) {
+		add(err.Range(), err.Partial)
+	}
+	if cfg.Check != nil {
+		_, diagErrors := cfg.Check(tree)
+		for _, err := range diagErrors {
+			add(err.Range(), err.Partial)
+		}
+	}
+	regions := getRegions(tree.Root)
+	regions = append(regions, errorRegions...)
+	return toVerif(regions)
+}
+
+// VerifFixRegions is the unexported fixRegions, applied to a copy.
+func VerifFixRegions(rs []VerifRegion) []VerifRegion {
+	return toVerif(fixRegions(fromVerif(rs)))
+}
+
+// VerifStyleOf returns the SGR rendering of the style that stylingFor[typ]
+// gives to an unstyled segment ("" when the type has no styling or is not in
+// the table).
+func VerifStyleOf(typ string) string {
+	return verifSGR(stylingFor[typ])
+}
+
+// VerifCommandStyles returns the renderings of stylingForGoodCommand and
+// stylingForBadCommand.
+func VerifCommandStyles() (good, bad string) {
+	return verifSGR(stylingForGoodCommand), verifSGR(stylingForBadCommand)
+}
+
+func verifSGR(st ui.Styling) string {
+	if st == nil {
+		return ""
+	}
+	return ui.StyleSegment(&ui.Segment{}, st).Style.SGR()
+}
+
+// VerifCommandType is the region type that triggers command lookups.
+const VerifCommandType = commandRegion
+
+// VerifSetMaxBlockForLate sets the time highlight blocks for late results and
+// returns the previous value.
+func VerifSetMaxBlockForLate(d time.Duration) time.Duration {
+	old := maxBlockForLate
+	maxBlockForLate = d
+	return old
+}
